@@ -42,6 +42,16 @@ def call_closure(w, clo, args, extra_hooks=None):
         first = 1
     else:
         return None
+    if body is None and clo[0] == "fn":
+        # a function item of std / a dependency handed to an adaptor (`.map(str::trim)`): what the walk's own
+        # hooks say about a call of it with these arguments
+        tt = {"k": "call", "def": clo[1], "path": clo[1], "res": clo[1], "name": clo[1].split("::")[-1], "args": [], "arg_tys": ["?"] * len(args),
+              "dest": {"l": 0, "p": []}, "dest_ty": "?", "t": None, "synthetic": True}
+        for h0 in w.hooks:
+            r = h0(w, -1, tt, list(args), {})
+            if r is not None and r != "diverge":
+                return r if r != CW.TOP else None
+        return None
     if body is None or body.coroutine:
         return None
     depth = getattr(w, "_cc_depth", 0)
@@ -284,6 +294,12 @@ def hooks():
             return None
         if re.search(r"Iterator>?::(by_ref|fuse|peekable)$", nm) and v0[0] == "iter":
             return a0 if a0[0] == "ref" else v0
+        if re.search(r"iter::Peekable::<I>::peek$|iter::Peekable::<I>::peek_mut$", nm) and v0[0] == "iter":
+            # looks at the next item without consuming it
+            w.mut_handled = True
+            if not v0[1]:
+                return CW.adt("std::option::Option", "None", 0, [])
+            return CW.adt("std::option::Option", "Some", 1, [("0", v0[1][0])])
         if (re.search(r"Iterator>?::next$", nm) or re.search(r"Iterator::next$", d)) and v0[0] == "iter":
             cell = _cell(w, env, a0)
             if cell is None:
